@@ -84,7 +84,7 @@ func (batch *Batch) close() (err error) {
 		// When the rest of the response cannot be skipped the connection is not
 		// positioned on the next response anymore: report it unless the batch
 		// already carries an error, so the connection gets closed below.
-		if err := batch.msgs.discard(); err != nil && (batch.err == nil || errors.Is(batch.err, io.EOF)) {
+		if err := batch.msgs.discard(); err != nil && (batch.err == nil || errors.Is(batch.err, io.EOF) || errors.Is(batch.err, io.ErrShortBuffer)) {
 			batch.err = dontExpectEOF(err)
 		}
 	}
